@@ -178,11 +178,16 @@ def handle (op : String) (args : List String) (impl : Impl) : Option Ans :=
     let jdeOff : Int := 2415020 * 86400000000000 + 43200000000000
     let m := (toTimeScaleF e ts).map (fun x =>
       if jde then Dur.add (Dur.add x.dur (Dur.fromTotal jdeOff)) etPrimeOffset else x.dur)
-    let sp := match impl, taiOf e with
+    -- an epoch HELD in ET or TDB has its instant from the closed form of its own scale (30 ns, C07), so the view
+    -- in the other dynamical scale is demanded to 60 ns
+    let dynSrc := e.ts == TS.ET || e.ts == TS.TDB
+    let sp := match impl, (if dynSrc then instEst e else taiOf e) with
       | .ok [r], some i => (match parseDur? r with
           | some r =>
             let v := if jde then sval r - jdeOff - j2000ns else sval r
-            verdict [("canonical", scanon r), ("closed_form_within_30ns", closedFormDev ts v i ≤ 30.0)]
+            verdict [("canonical", scanon r),
+                     (if dynSrc then "closed_form_within_60ns_dynamical_source" else "closed_form_within_30ns",
+                      closedFormDev ts v i ≤ (if dynSrc then 60.0 else 30.0))]
           | none => "FAIL:decode")
       | .other w, _ => "FAIL:" ++ w
       | _, _ => "FAIL:decode"
@@ -194,7 +199,7 @@ def handle (op : String) (args : List String) (impl : Impl) : Option Ans :=
           | none => ("ok " ++ showDur x, "differs"))
       | some x, _ => ("ok " ++ showDur x, "differs")
       | none, _ => ("unmodelled", "unmodelled")
-    pure { model := mstr, spec := sp, branch := "dyn_acc:" ++ name ++ ":" ++ note }
+    pure { model := mstr, spec := sp, branch := "dyn_acc:" ++ name ++ ":" ++ (if dynSrc then e.ts.name ++ ":" else "") ++ note }
   | _, _ => none
 
 end Hifi.Drive.Dynamical
